@@ -97,3 +97,60 @@ def cpower(x, e):
 
 def gamma(x):
     return _ap("gamma", num(x))
+
+
+# ---------------------------------------------------------------- order facts (A8 instances)
+def _apps(t, names, acc, seen):
+    if t.get_id() in seen:
+        return
+    seen[t.get_id()] = t
+    if z3.is_app(t):
+        if t.decl().name() in names and t.num_args() >= 1:
+            if not any(t.eq(u) for u in acc.setdefault(t.decl().name(), [])):
+                acc[t.decl().name()].append(t)
+        for c in t.children():
+            _apps(c, names, acc, seen)
+
+
+def order_instances(terms, extra=()):
+    """Ground instances of the order axioms of the real functions, for the applications that occur in
+    `terms` (z3 terms) and in `extra`: exp > 0 and strictly increasing; log strictly increasing on the
+    positive axis; log(exp(a)) = a; sqrt, pow and the real part of the complex power positive for a
+    positive argument / base.  Every instance is a true statement about the real functions (A8), so adding
+    them can never make a false goal provable; nothing is instantiated beyond the terms at hand."""
+    acc, seen = {}, {}
+    for t in list(terms) + list(extra):
+        _apps(t.zr() if isinstance(t, Num) else t, ("exp", "log", "sqrt", "pow", "cpow_re"), acc, seen)
+    out = []
+    ex, lg = acc.get("exp", []), acc.get("log", [])
+    EXP, LOG = _uf("exp"), _uf("log")
+    for e in ex:
+        out.append(e > 0)
+        le = LOG(e)
+        out.append(le == e.arg(0))
+        if not any(le.eq(u) for u in lg):
+            lg = lg + [le]
+    for i, a in enumerate(ex):
+        for b in ex[i + 1:]:
+            out.append(z3.Implies(a.arg(0) < b.arg(0), a < b))
+            out.append(z3.Implies(b.arg(0) < a.arg(0), b < a))
+    for i, a in enumerate(lg):
+        for b in lg[i + 1:]:
+            x, y = a.arg(0), b.arg(0)
+            out.append(z3.Implies(z3.And(x > 0, x < y), a < b))
+            out.append(z3.Implies(z3.And(y > 0, y < x), b < a))
+            out.append(z3.Implies(x == y, a == b))
+    for t in acc.get("sqrt", []):
+        out.append(z3.Implies(t.arg(0) > 0, t > 0))
+        out.append(z3.Implies(t.arg(0) >= 0, t * t == t.arg(0)))
+    for nm in ("pow", "cpow_re"):
+        for t in acc.get(nm, []):
+            out.append(z3.Implies(t.arg(0) > 0, t > 0))
+    return out
+
+
+def exp_bounds():
+    """Rational enclosures of e^-1 and e^-1/2 (named numeric instances, like pi_facts)."""
+    EXP = _uf("exp")
+    return [EXP(z3.RealVal(0)) == 1, EXP(z3.RealVal(-1)) > z3.Q(3678, 10000), EXP(z3.RealVal(-1)) < z3.Q(3679, 10000),
+            EXP(z3.Q(-1, 2)) > z3.Q(6065, 10000), EXP(z3.Q(-1, 2)) < z3.Q(6066, 10000)]
